@@ -6,12 +6,16 @@ import (
 	"bytes"
 	"fmt"
 	"net"
+	"os"
 	"strconv"
+	"strings"
 	"testing"
+	"time"
 
 	"github.com/valyala/fasthttp/fasthttputil"
 	"github.com/valyala/fasthttp/internal/verif/mcrt"
 	msync "github.com/valyala/fasthttp/internal/verif/mcsync"
+	mtime "github.com/valyala/fasthttp/internal/verif/mctime"
 	"github.com/valyala/fasthttp/internal/verif/mcx"
 	"github.com/valyala/fasthttp/internal/verif/vrt"
 )
@@ -29,6 +33,13 @@ type c17op struct {
 	harness bool // issued by harness code that legitimately owns the conn (hijack handler body, keeper)
 }
 
+func c17min(a, b int) int {
+	if a < b {
+		return a
+	}
+	return b
+}
+
 type c17cfg struct {
 	rmu, noResp, keep bool
 	variant           int // 0 GET, 1 POST with body, 2 ordinary request pipelined in front, 3 read buffer just above the request size
@@ -39,6 +50,7 @@ type c17obs struct {
 	req       []byte // everything up to and including the hijacking request
 	post      []byte // bytes sent after it
 	split     int    // post[:split] travels in the same write as the request
+	late      bool   // the writes after the first are held back until the hijack handler runs
 	writes    [][]byte
 	nResp     int
 	ops       []c17op
@@ -46,7 +58,9 @@ type c17obs struct {
 	srvRead   int // bytes the serving thread took from the conn
 	serverTid int
 	hijackTid int
-	harnessOp bool
+	keeperTid int
+	hjActive  bool // the hijack handler body is executing (on hijackTid)
+	kpActive  bool // the keeper is using the kept conn (on keeperTid)
 
 	handoffIdx    int
 	outAtHandoff  []byte
@@ -74,7 +88,9 @@ type c17conn struct {
 }
 
 func (c *c17conn) rec(kind byte) int {
-	c.o.ops = append(c.o.ops, c17op{kind: kind, tid: mcrt.CurrentID(), harness: c.o.harnessOp})
+	t := mcrt.CurrentID()
+	owner := (c.o.hjActive && t == c.o.hijackTid) || (c.o.kpActive && t == c.o.keeperTid)
+	c.o.ops = append(c.o.ops, c17op{kind: kind, tid: t, harness: owner})
 	return len(c.o.ops) - 1
 }
 
@@ -112,7 +128,7 @@ var c17palette = [][]byte{
 }
 
 // chunk lists: 0..3 chunks
-var c17lists = [][]int{{}, {0}, {1}, {2}, {0, 1}, {1, 2}, {2, 0}, {0, 1, 2}, {2, 1, 0}}
+var c17lists = [][]int{{}, {0}, {2}, {0, 1}, {1, 2}, {0, 1, 2}, {2, 1, 0}}
 
 const c17hijackGET = "GET /hijack HTTP/1.1\r\nHost: a\r\n\r\n"
 const c17hijackPOST = "POST /hijack HTTP/1.1\r\nHost: a\r\nContent-Length: 3\r\n\r\nabc"
@@ -120,7 +136,7 @@ const c17plainGET = "GET /plain HTTP/1.1\r\nHost: a\r\n\r\n"
 
 func c17body(cfg c17cfg, lists [][]int) func() {
 	return func() {
-		o := &c17obs{cfg: cfg, handoffIdx: -1, hjReturnIdx: -1, serverTid: -1, hijackTid: -1}
+		o := &c17obs{cfg: cfg, handoffIdx: -1, hjReturnIdx: -1, serverTid: -1, hijackTid: -1, keeperTid: -1}
 		mcrt.SetUserData(o)
 		// ---- data case
 		li := mcrt.Pick(len(lists), "chunk-list")
@@ -150,6 +166,11 @@ func c17body(cfg c17cfg, lists [][]int) func() {
 			addSplit(len(o.post))
 		}
 		o.split = splits[mcrt.Pick(len(splits), "split")]
+		// timing of the writes that follow the first one: 0 = back to back (the scheduler decides how much the server
+		// finds on the wire), 1 = only after the hijack handler has started (exactly `split` bytes can be buffered)
+		if o.split < len(o.post) {
+			o.late = mcrt.Pick(2, "rest-timing") == 1
+		}
 		switch cfg.variant {
 		case 1:
 			o.req = []byte(c17hijackPOST)
@@ -207,10 +228,10 @@ func c17body(cfg c17cfg, lists [][]int) func() {
 			default:
 				mcrt.Covered("hijacked-nothing-follows")
 			}
-			o.harnessOp = true
+			o.hjActive = true
 			buf := make([]byte, 5)
 			for len(o.hjRead) < o.hjWant {
-				n, err := c.Read(buf)
+				n, err := c.Read(buf[:c17min(len(buf), o.hjWant-len(o.hjRead))])
 				o.hjRead = append(o.hjRead, buf[:n]...)
 				if err != nil {
 					o.hjErr = err.Error()
@@ -218,7 +239,7 @@ func c17body(cfg c17cfg, lists [][]int) func() {
 				}
 			}
 			c.Write(append([]byte("HJ:"), o.hjRead...))
-			o.harnessOp = false
+			o.hjActive = false
 			if cfg.keep {
 				o.kept = c
 			}
@@ -251,7 +272,10 @@ func c17body(cfg c17cfg, lists [][]int) func() {
 		})
 		mcrt.GoNamed("client", func() {
 			defer wg.Done()
-			for _, w := range o.writes {
+			for i, w := range o.writes {
+				if i == 1 && o.late {
+					mcrt.WaitUntil("hijack-handler-started", func() bool { return o.handoffIdx >= 0 })
+				}
 				if _, err := cc.Write(w); err != nil {
 					o.clientErr = "write: " + err.Error()
 					break
@@ -274,23 +298,21 @@ func c17body(cfg c17cfg, lists [][]int) func() {
 			wg.Add(1)
 			mcrt.GoNamed("keeper", func() {
 				defer wg.Done()
-				mcrt.WaitUntil("hijack-handler-returned", func() bool { return o.hjReturned || (o.serveReturned && o.handoffIdx < 0) })
-				if o.kept == nil {
-					pc.Close()
-					return
-				}
-				// give the server every chance to finish whatever it does after the handler returned
-				mcrt.WaitUntil("server-side-quiet", func() bool { return o.serveReturned && mcrt.LiveNamed("") == 0 })
+				mcrt.WaitUntil("hijack-handler-returned", func() bool { return o.hjReturned })
+				// virtual time only advances when every thread is blocked: after this sleep the server side has
+				// finished whatever it does after the handler returned
+				mtime.Sleep(time.Second)
+				o.keeperTid = mcrt.CurrentID()
+				o.kpActive = true
 				func() {
 					defer func() {
 						if e := recover(); e != nil {
 							o.lateErr = fmt.Sprint("panic: ", e)
 						}
 					}()
-					o.harnessOp = true
 					buf := make([]byte, 7)
 					for len(o.lateRead) < len(o.post)-o.hjWant {
-						n, err := o.kept.Read(buf)
+						n, err := o.kept.Read(buf[:c17min(len(buf), len(o.post)-o.hjWant-len(o.lateRead))])
 						o.lateRead = append(o.lateRead, buf[:n]...)
 						if err != nil {
 							o.lateErr = err.Error()
@@ -299,7 +321,6 @@ func c17body(cfg c17cfg, lists [][]int) func() {
 					}
 					o.kept.Write(append([]byte("LATE:"), o.lateRead...))
 				}()
-				o.harnessOp = true
 				o.keeperDone = true
 				o.kept.Close()
 				pc.Close() // whatever Close above did, let the client see EOF
@@ -357,9 +378,9 @@ func c17check(x *mcrt.Exec) (string, string, string) {
 		bucket = "part"
 	}
 	cls := fmt.Sprintf("post=%d buffered-at-handoff=%s", len(o.post), bucket)
-	desc := fmt.Sprintf("rmu=%v noResponse=%v keep=%v variant=%d post=%s split=%d", o.cfg.rmu, o.cfg.noResp, o.cfg.keep, o.cfg.variant, q(o.post), o.split)
+	desc := fmt.Sprintf("rmu=%v noResponse=%v keep=%v variant=%d post=%s split=%d rest-held-back=%v", o.cfg.rmu, o.cfg.noResp, o.cfg.keep, o.cfg.variant, q(o.post), o.split, o.late)
 	if o.handoffIdx < 0 {
-		if x.Out.Deadlock {
+		if x.Out.Deadlock && !o.serveReturned {
 			return cls, "", "" // generic deadlock report
 		}
 		return cls, "hijack-handler-never-ran", desc + ": the handler called ctx.Hijack but the hijack handler was never started; ServeConn returned " + fmt.Sprint(o.serveErr)
@@ -423,10 +444,10 @@ func c17check(x *mcrt.Exec) (string, string, string) {
 	if o.hjErr != "" || !bytes.Equal(o.hjRead, o.post[:o.hjWant]) {
 		sig := "hijack-handler-bytes-differ"
 		switch {
-		case len(o.hjRead) < o.hjWant && bytes.HasPrefix(o.post, o.hjRead):
-			sig = "hijack-handler-bytes-truncated"
-		case len(o.hjRead) <= o.hjWant && bytes.HasSuffix(o.post[:o.hjWant], o.hjRead) || (o.bufferedAtHO > 0 && o.bufferedAtHO <= len(o.post) && bytes.HasPrefix(o.post[o.bufferedAtHO:], o.hjRead)):
+		case o.bufferedAtHO > 0 && !bytes.HasPrefix(o.hjRead, o.post[:c17min(c17min(o.bufferedAtHO, o.hjWant), len(o.post))]):
 			sig = "hijack-handler-lost-bytes-buffered-with-request"
+		case bytes.HasPrefix(o.post[:o.hjWant], o.hjRead):
+			sig = "hijack-handler-bytes-truncated"
 		}
 		return cls, sig, fmt.Sprintf("%s: client sent %s after the request (%d of them were already taken off the wire by the server), hijack handler read %s err=%q", desc, q(o.post[:o.hjWant]), o.bufferedAtHO, q(o.hjRead), o.hjErr)
 	}
@@ -486,6 +507,9 @@ func TestVerif_C17(t *testing.T) {
 			lists := c17lists
 			bound := b
 			name := fmt.Sprintf("%s/rmu=%v/noresp=%v/keep=%v", []string{"get", "post-body", "pipelined-behind-plain", "tight-readbuf"}[v], cfg.rmu, cfg.noResp, cfg.keep)
+			if f := os.Getenv("VERIF_SCENARIO"); f != "" && !strings.Contains(name, f) {
+				continue
+			}
 			scs = append(scs, mcx.Scenario{Name: name, Cfg: mcrt.Config{Bound: bound, Horizon: 3000}, Body: c17body(cfg, lists), Check: c17check})
 		}
 	}
